@@ -4,7 +4,7 @@
 From Coq Require Import List NArith ZArith Bool Arith Lia Permutation Sorted.
 From Common Require Import Bytes Outcome.
 From Gen Require Import Consts C03.
-From C03 Require Import Model Spec Proofs_Checksum Proofs_Layout Proofs_Write Proofs_Checker Proofs_Tie.
+From C03 Require Import Model Spec Proofs_Checksum Proofs_Layout Proofs_Write Proofs_Checker Proofs_Tie Proofs_Order.
 Import ListNotations.
 Local Open Scope N_scope.
 
@@ -117,3 +117,37 @@ Theorem container_checker_sound : forall b : list N,
   container_ok b = true -> S_wf b /\ (has_head (dir_of b) = true -> file_sum b = header_checksumMagic).
 Proof. intros b H. rewrite <- magic_ok. exact (container_ok_sound b H). Qed.
 Print Assumptions container_checker_sound.
+
+(* 8. The output is a function of the table MAP, not of the order in which a
+   Go map happens to be iterated: listing the entries in any other order gives
+   the same bytes (this is what justifies modelling a Go map by a list). *)
+Theorem write_order_independent : forall (s : N) (ts ts' : list table),
+  map_ok ts -> Permutation ts ts' -> M_write s ts = M_write s ts'.
+Proof. exact write_order_independent. Qed.
+Print Assumptions write_order_independent.
+
+(* 9. The arithmetic of the model is the arithmetic of header/write.go: each
+   expression the translator extracted from the source on this run
+   (coq/Gen/C03.v) equals the model's definition. *)
+Theorem model_matches_source_expressions :
+  (forall n, 1 <= n -> Z.of_N (hdr_entry_selector n) = header_expr_entrySelector (Z.of_N n)) /\
+  (forall n, Z.of_N (wrap16 n) = header_expr_NumTables (Z.of_N n)) /\
+  (forall es, Z.of_N (hdr_search_range es) = header_expr_SearchRange (Z.of_N es)) /\
+  (forall es, Z.of_N (wrap16 es) = header_expr_EntrySelector (Z.of_N es)) /\
+  (forall n, 1 <= n -> Z.of_N (hdr_range_shift n (N.log2 n)) =
+                       header_expr_RangeShift (Z.of_N n) (Z.of_N (N.log2 n))) /\
+  (forall n, Z.of_N (wrap32 (12 + 16 * n)) = header_expr_firstOffset (Z.of_N n)) /\
+  (forall len, Z.of_N (padded32 len) = header_expr_advance (Z.of_N len)) /\
+  (forall k : nat, Z.of_N (wrap32 (N.of_nat k)) = header_expr_length (Z.of_nat k)).
+Proof.
+  repeat split.
+  - exact tie_entry_selector.
+  - exact tie_num_tables.
+  - exact tie_search_range.
+  - exact tie_entry_selector_field.
+  - exact tie_range_shift.
+  - exact tie_first_offset.
+  - exact tie_advance.
+  - exact tie_length.
+Qed.
+Print Assumptions model_matches_source_expressions.
